@@ -78,16 +78,21 @@ func known(property, fp string) (KnownFinding, bool) {
 		if p == "" {
 			p = "/verif/known_findings.json"
 		}
-		b, err := os.ReadFile(p)
-		if err != nil {
-			return
-		}
-		var kf knownFile
-		if json.Unmarshal(b, &kf) != nil {
-			return
-		}
-		for _, k := range kf.Known {
-			knownSet[k.Property+"|"+k.Fingerprint] = k
+		files := []string{p}
+		extra, _ := filepath.Glob(filepath.Join(filepath.Dir(p), "known.d", "*.json"))
+		files = append(files, extra...)
+		for _, f := range files {
+			b, err := os.ReadFile(f)
+			if err != nil {
+				continue
+			}
+			var kf knownFile
+			if json.Unmarshal(b, &kf) != nil {
+				continue
+			}
+			for _, k := range kf.Known {
+				knownSet[k.Property+"|"+k.Fingerprint] = k
+			}
 		}
 	})
 	k, ok := knownSet[property+"|"+fp]
